@@ -126,7 +126,7 @@ def flatten(tree, id_attrs=()):
             me = add("elem", par, n["l"], n.get("u", ""), n.get("p", ""), "", sc)
             for a in n.get("a", []):
                 add("attr", me, a["l"], a.get("u", ""), a.get("p", ""), a["v"],
-                    idf=((n["l"], a["l"]) in id_attrs))
+                    idf=((n["l"], a["l"]) in id_attrs and not n.get("p") and not a.get("p")))      # DTDs declare QNames
             for c in n["c"]:
                 go(c, me, sc)
         elif k == "text":
